@@ -252,7 +252,25 @@ Definition t2j_walk (n : nat) (o : Z) (d : tdesc) (bs : list Z) : option (list Z
 Definition walk_opts (o : Z) : bool :=
   negb (o_value_mapping o) && negb (o_thrift_base o && o_base_in_ctx o) && negb (o_convert_exception o).
 
+(* the JSON of an expected tree with the double lexemes chosen by fd (T2J.to_json is the instance fd = f64_exact_lexeme) *)
+Fixpoint to_json_fd (fd : Z -> list Z) (e : jexp) : json :=
+  match e with
+  | EBool b => JBool b
+  | EInt z => JNum (fmt_int z)
+  | EDouble b => JNum (fd b)
+  | EStr s | EStrV s => JStr s
+  | EByteV z => JStr (fmt_int z)
+  | EQuoted e' => match to_json_fd fd e' with JNum l => JStr l | j => j end
+  | EArr xs => JArr (map (to_json_fd fd) xs)
+  | EObj ms => JObj (map (fun m => (fst m, to_json_fd fd (snd m))) ms)
+  end.
+
 (* what the spec says the text is: the canonical print of the expected tree when every double in it has a spelling *)
+Definition spec_text_fd (fd : Z -> list Z) (t : tres) : option (list Z) :=
+  match t with
+  | TOk e => if jexp_finite e then Some (json_print (to_json_fd fd e)) else None
+  | _ => None
+  end.
 Definition spec_text (t : tres) : option (list Z) :=
   match t with
   | TOk e => if jexp_finite e then Some (json_print (to_json e)) else None
